@@ -5,10 +5,20 @@ from vlib import core, archgen as A, streams as S
 import check as CK
 
 ID = "C20"
-LEAN_MODULES = ["LhasaV.Props.C20"]
+LEAN_MODULES = ["LhasaV.Props.C20", "LhasaV.Props.C20Alloc"]
 VH_FEATURES = ["reader"]
 PER_OP_SECONDS = 30
-THEOREMS = {'free_releases_all': 'full: every stream, policy, legal history', 'free_releases_all_prefix': 'full: abandoned at any point', 'legal_iff_segments': 'full', 'decoders_exact': 'full: decoder objects counted exactly on legal histories', '(allocation failure)': 'not proved: observed by fault injection under ASan'}
+THEOREMS = {'free_releases_all': 'full: every stream, policy, legal history', 'free_releases_all_prefix': 'full: abandoned at any point',
+            'legal_iff_segments': 'full', 'decoders_exact': 'full: decoder objects counted exactly on legal histories',
+            'alloc_failure_releases_all': 'full: every legal history, EVERY k: no leak, no double free (allocation-aware model, 16 sites in C order)',
+            'alloc_failure_releases_all_prefix': 'full', 'alloc_failure_new': 'full: k < 3, the constructors',
+            'alloc_failures_release_all': 'full: ANY set of failing allocations, ANY history',
+            'alloc_failure_reports': 'full: the call during which the allocation fails reports failure / end-of-archive / a re-presented entry, never a header from the stream',
+            'alloc_failures_report': 'full: any failure set', 'nextA_never_faults': 'full: next never faults under any failures',
+            'alloc_failure_no_later_fault': 'full', 'header_under_failure': 'full: a header returned under failures is the header the fault-free parser returns',
+            'fired_iff': 'full', 'alloc_failure_decoders_exact': 'full', 'runA_refines': 'full: no failure => the allocation-aware model IS the reader model',
+            'freeA_refines': 'full', 'results_refine': 'full', 'header_readA_refines': 'full', 'header_readA_blocks': 'full: block accounting of the parser',
+            '(invalid accesses outside the modelled ownership/parse logic under failure)': 'observed by ASan/UBSan, not proved'}
 TRUSTED = ["ghost allocation ledger of LhasaV.Model.Reader (header objects with reference counts and their string blocks, decoders); "
            "tied to the C by comparing the number of live heap blocks after lha_reader_free + lha_input_stream_free on every history",
            "harness/ops_reader.c: link-time --wrap of malloc/calloc/realloc/free/strdup counts live blocks and injects failures"]
@@ -142,7 +152,19 @@ def evaluate(ctx, env, cases, with_model):
     P = sys.modules[__name__]
     conc, corr, st = CK.evaluate(ctx, P, env, cases, with_model)      # injected cases carry the tag c-only: judged on the C alone
     st["evaluations"] = len(cases)
-    return conc, corr, st
+    # the allocation-aware model (Model/ReaderAlloc, driver lhva) against the C under injection: results, live blocks, allocation
+    # counts, whether and in which call the failure fired - token for token; and the failing call reports failure
+    global _alloc_eval
+    if _alloc_eval is None:
+        from vlib import dtwrap
+        _alloc_eval = dtwrap.evaluate_with("difftest_alloc.py", ID, quick_scale=0.3, thorough_scale=6.0)
+    c2, r2, st2 = _alloc_eval(ctx, env, [], with_model)
+    st["evaluations"] += st2.get("evaluations", 0)
+    ctx.dist["alloc-model-tie-cases"] += st2.get("evaluations", 0)
+    return conc + c2, corr + r2, st
+
+
+_alloc_eval = None
 
 
 def nontrivial(c):
@@ -162,6 +184,8 @@ def signature(case, c_out, why):
 LEVEL_TEXT = ("Lean theorem over the reader model's allocation ledger: after any legal history, freeing the reader leaves no live header, "
               "string or decoder; the C is tied by exact live-block counts after free on every generated history, and allocation failures "
               "are injected at sampled/all positions under ASan.")
-LEVEL_NOTE = ("Partial: allocation-failure safety and the absence of invalid accesses outside the modelled ownership logic are observed "
-              "(ASan + live-block count), not proved; file handles are owned by the caller in the modelled API paths.")
-TECHNIQUE = "Lean 4 proof (ownership-ledger invariant over the reader state machine) + live-block differential correspondence + allocation fault injection"
+LEVEL_NOTE = ("Both halves are proved at model level (release after any legal history; and under ANY allocation failures: release, failure "
+              "reporting, no fault). Partial in that the allocator and the absence of invalid accesses outside the modelled ownership / parse "
+              "logic are observed (ASan + live-block count + allocation-order correspondence), not proved; file handles are the caller's.")
+TECHNIQUE = ("Lean 4 proof (ownership-ledger invariant over the reader state machine; allocation-aware refinement with a failure oracle: release, "
+             "failure reporting and refinement theorems) + live-block / allocation-order differential correspondence under fault injection")
